@@ -4,7 +4,7 @@
 
 use crate::spec::*;
 use crate::util::Dialect;
-use crate::xspec::{b, X};
+use crate::xspec::{b, TplPiece, X};
 use sea_query::{BinOper, Value};
 use vcore::prng::Rng;
 
@@ -195,6 +195,11 @@ impl<'a> Gen<'a> {
             }
             return self.val_of(k);
         }
+        if !self.cfg.exec && self.rng.chance(1, 10) {
+            if let Some(e) = self.text_level_scalar(scope, k, depth) {
+                return e;
+            }
+        }
         match k {
             K::I => match self.rng.below(9) {
                 0 | 1 => {
@@ -248,6 +253,36 @@ impl<'a> Gen<'a> {
         }
     }
 
+    /// dialect-specific / opaque expression forms, text-level workloads only
+    fn text_level_scalar(&mut self, scope: &[Rel], k: K, depth: usize) -> Option<X> {
+        let d = self.cfg.dialect?;
+        match self.rng.below(4) {
+            0 => {
+                // custom template with values (positional, or numbered incl. a repeated / reordered $n on Postgres)
+                let a0 = self.scalar(scope, k, depth - 1);
+                let a1 = self.scalar(scope, k, depth - 1);
+                let numbered = d == Dialect::Postgres;
+                let pieces = if numbered && self.rng.coin() {
+                    vec![TplPiece::Text("COALESCE(".into()), TplPiece::Arg(1), TplPiece::Text(", ".into()), TplPiece::Arg(0), TplPiece::Text(", ".into()), TplPiece::Arg(1), TplPiece::Text(")".into())]
+                } else {
+                    vec![TplPiece::Text("COALESCE(".into()), TplPiece::Arg(0), TplPiece::Text(", '?$1', ".into()), TplPiece::Arg(1), TplPiece::Text(")".into())]
+                };
+                Some(X::CustWith(pieces, vec![a0, a1], numbered))
+            }
+            1 if d == Dialect::Postgres && k == K::T => {
+                let e = self.scalar(scope, K::T, depth - 1);
+                Some(X::AsEnum(if self.rng.coin() { "mood".into() } else { "mood[]".into() }, b(e)))
+            }
+            2 if d == Dialect::Postgres && k == K::T => {
+                let l = self.scalar(scope, K::T, depth - 1);
+                let r = self.scalar(scope, K::T, depth - 1);
+                Some(X::Bin(b(l), BinOper::PgOperator(sea_query::extension::postgres::PgBinOper::Concatenate), b(r)))
+            }
+            3 => Some(X::Cust(if k == K::T { "CURRENT_USER".into() } else { "PI".into() })),
+            _ => None,
+        }
+    }
+
     /// boolean expression
     pub fn boolean(&mut self, scope: &[Rel], depth: usize) -> X {
         let k = *self.rng.pick(&[K::I, K::I, K::I, K::T, K::R]);
@@ -255,6 +290,13 @@ impl<'a> Gen<'a> {
             let l = self.scalar(scope, k, 0);
             let r = self.scalar(scope, k, 0);
             return X::Bin(b(l), *self.rng.pick(&[BinOper::Equal, BinOper::SmallerThan, BinOper::GreaterThanOrEqual]), b(r));
+        }
+        if !self.cfg.exec && self.cfg.is(Dialect::Postgres) && self.rng.chance(1, 12) {
+            use sea_query::extension::postgres::PgBinOper;
+            let l = self.scalar(scope, K::T, depth - 1);
+            let r = self.scalar(scope, K::T, depth - 1);
+            let op = *self.rng.pick(&[PgBinOper::ILike, PgBinOper::NotILike, PgBinOper::Contains, PgBinOper::Regex, PgBinOper::Matches]);
+            return X::Bin(b(l), BinOper::PgOperator(op), b(r));
         }
         match self.rng.below(14) {
             0..=3 => {
